@@ -848,27 +848,38 @@ def rule_r9(prog, res):
                         'method name (its sub_name), so the arguments are '
                         'read as missing; NullServer delivers them' %
                         srcs[-1][:50])
-    objs = [c for c in calls_in(f.node) if call_name(c) == '_doc_to_object']
-    res.floor('R9', 'object reads in HierDictDocument.deserialize', len(objs),
-              1)
-    for c in objs:
-        st = c
-        while not isinstance(st, ast.stmt):
-            st = st._parent
-        atoms = guardspec.atoms_at(st, f.node)
-        ok = any('ComplexModelBase' in t and pol for t, pol in atoms)
-        where = '%s:%d' % (f.module.relpath, c.lineno)
-        res.ob('R9', where, 'deserialize reads the message as an object %s' %
-               ('only when its class is complex' if ok else
+    nobj = 0
+    for cfq in ('spyne.protocol.dictdoc.hier:HierDictDocument',
+                'spyne.protocol.msgpack:MessagePackRpc'):
+        hc = prog.cls(cfq)
+        f = hc.methods.get('deserialize')
+        if f is None:
+            continue        # inherits the base reader
+        objs = [c for c in calls_in(f.node)
+                if call_name(c) == '_doc_to_object' and len(c.args) >= 2 and
+                unparse(c.args[1]) == 'body_class']
+        for c in objs:
+            nobj += 1
+            st = c
+            while not isinstance(st, ast.stmt):
+                st = st._parent
+            atoms = guardspec.atoms_at(st, f.node)
+            from ..flow import entails, guards_at, flatten_guards
+            ok = entails(flatten_guards(guards_at(st, stop=f.node)),
+                         'issubclass(body_class, ComplexModelBase)')
+            where = '%s:%d' % (f.module.relpath, c.lineno)
+            res.ob('R9', where, '%s reads the message as an object %s' % (
+                f.qualname, 'only when its class is complex' if ok else
                 'whatever its class'), 'ok' if ok else 'VIOLATED')
-        if not ok:
-            res.finding('R9', 'HierDictDocument.deserialize|leaf-message',
-                        where, 'the message is always read with '
-                        '_doc_to_object: a bare method whose argument is a '
-                        'primitive raises AttributeError out of the request '
-                        '(Unicode has no _type_info) although NullServer '
-                        'accepts the same call')
-
+            if not ok:
+                res.finding('R9', '%s|leaf-message' % f.qualname,
+                            where, 'the message is always read with '
+                            '_doc_to_object: a bare method whose argument is '
+                            'a primitive raises AttributeError out of the '
+                            'request (Unicode has no _type_info) although '
+                            'NullServer accepts the same call')
+    res.floor('R9', 'object reads in the dict deserialize entry points',
+              nobj, 2)
 
 def run(prog, res, tier):
     res.run_rule(rule_r1, prog, res)
@@ -920,6 +931,18 @@ MUTANTS = [
                    "class_name = body_class.get_element_name()",
                    "class_name = self.get_class_name(body_class)"),
            'message-key'),
+    Mutant('msgpackrpc-without-leaf-branch', 'R9', 'fire',
+           'spyne/protocol/msgpack.py',
+           in_func('MessagePackRpc.deserialize',
+                   "        elif body_class and not issubclass(body_class, "
+                   "ComplexModelBase):",
+                   "        elif body_class and not issubclass(body_class, "
+                   "ComplexModelBase) and False:"), 'leaf-message'),
+    Mutant('hier-leaf-branch-dropped', 'R9', 'fire',
+           'spyne/protocol/dictdoc/hier.py',
+           in_func('HierDictDocument.deserialize',
+                   "not issubclass(body_class, ComplexModelBase)",
+                   "not issubclass(body_class, ModelBase)"), 'leaf-message'),
     Mutant('prefetch-with-unique-sentinel', 'R8', 'silent',
            'spyne/server/wsgi.py',
            in_func('WsgiApplication.handle_rpc',
@@ -976,8 +999,8 @@ MUTANTS = [
                    "            return retval"), None),
     Mutant('aux-result-through-callback', 'R4', 'fire', _N,
            in_func('_FunctionCall.__call__',
-                   "                    retval = _cb_sync(ctx, cnt, self)\n",
-                   "                    retval = _cb_sync(ctx, cnt, self)\n"
+                   "                        raise\n",
+                   "                        raise\n"
                    "            else:\n"
                    "                _cb_sync(ctx, cnt, self)\n"),
            'callback-for-aux'),
